@@ -32,6 +32,18 @@ def policy_views(ctx: Ctx) -> Policy:
     return Policy(count_assert="input", name="views", discharge=o.discharge, nonzero=o.nonzero, implicit_only_tainted=True, count_dt_edge=False)
 
 
+def policy_fsm(ctx: Ctx) -> Policy:
+    """policy_views + the FSM header-memo flow facts (fsmfacts.py)."""
+    from ..fsmfacts import FsmFacts
+
+    policy_input(ctx)
+    o: Oracles = ctx._oracles  # type: ignore[attr-defined]
+    if not hasattr(ctx, "_fsmfacts"):
+        ctx._fsmfacts = FsmFacts(ctx)  # type: ignore[attr-defined]
+    ff = ctx._fsmfacts  # type: ignore[attr-defined]
+    return Policy(count_assert="input", name="fsm", discharge=o.discharge, nonzero=o.nonzero, implicit_only_tainted=True, count_dt_edge=False, safe_site=ff.safe_site)
+
+
 def origin_key(o: Origin) -> str:
     return f"{o.func.qualname}:{norm(o.node)[:100]}"
 
